@@ -112,6 +112,8 @@ Proof.
   intros h o Hw. destruct o; cbn [mstep].
   - pose proof (lm_build_keeps (mh_arrs h) (length es) es) as [K B].
     destruct (lm_build (mh_arrs h) (length es) es) as [arrs' l]. apply add_map_good; auto.
+  - pose proof (lm_build_keeps (mh_arrs h) size es) as [K B].
+    destruct (lm_build (mh_arrs h) size es) as [arrs' l]. apply add_map_good; auto.
   - destruct (get_map h a) as [m|] eqn:Hg; [|apply mgood_refl; auto].
     destruct (has_key (mh_arrs h) m k); [apply mgood_refl; auto|].
     apply add_map_good; auto; [apply keeps_refl|]. cbn. apply (Hw _ _ Hg).
